@@ -326,7 +326,11 @@ def generate(seed: int, tier: str = "quick") -> dict:
     faults = sorted({ft for o in program if o["op"] == "trig.install" for ft in features(o["a"], grid, k, max(o["bar"], 0))})
     if grid[0] != start:
         faults.append("start_off_grid")
-    return {"property": ID, "seed": seed, "world": world, "program": program, "faults": [{"kind": ft} for ft in faults]}
+    sc = {"property": ID, "seed": seed, "world": world, "program": program, "faults": [{"kind": ft} for ft in faults]}
+    if R.sub(seed, "second_run").random() < 0.15:
+        sc["opts"] = {"second_run": True}
+        sc["faults"].append({"kind": "second_run_in_same_process"})
+    return sc
 
 
 # ------------------------------------------------------------------------------------------------ oracle
@@ -520,8 +524,25 @@ class TriggerOracle(Oracle):
 
 # ------------------------------------------------------------------------------------------------ plugin interface
 def execute(scenario) -> Sim:
-    sim = Sim(scenario, TriggerOracle())
-    return sim.run()
+    sim = Sim(scenario, TriggerOracle()).run()
+    if scenario.get("opts", {}).get("second_run") and sim.crash is None:
+        # the same back test once more in the same process (a parameter scan, a notebook cell run twice): the first run's
+        # triggers belong to the first run - whatever the second run does must not make them fire again
+        before = {tid: len(c) for tid, c in sim.trig_calls.items()}
+        orc = sim.oracle
+        sim2 = Sim(scenario, TriggerOracle()).run()
+        sim.count("fault:second_run_in_same_process")
+        sim.event("second_run", sim2.log_digest())
+        for tid, spec in orc.specs.items():
+            grown = len(sim.trig_calls.get(tid, [])) - before.get(tid, 0)
+            if grown:
+                late = sim.trig_calls[tid][before.get(tid, 0):]
+                sim.violate("c18.fired_set", f"{spec['kind']}:extra:fired_during_a_later_run_in_the_same_process", spec=spec,
+                            n_extra=grown, extra=[ts for _b, ts, _k in late[:8]])
+        for v in sim2.violations:
+            sim.violate(v["oracle"], v["site"], **dict(v["detail"], second_run=True))
+        sim.states |= sim2.states
+    return sim
 
 
 def abstract(scenario, sim):
